@@ -13,11 +13,12 @@ import (
 )
 
 type skipSite struct {
-	Fn   string
-	Key  string
-	Cond string
-	Over string
-	Pos  token.Pos
+	Fn    string
+	Key   string
+	Cond  string
+	Over  string
+	Pos   token.Pos
+	Atoms *Atoms
 }
 
 // skipSites inventories, in the functions of the given package prefixes, every *pure skip*
@@ -25,6 +26,7 @@ type skipSite struct {
 // body does nothing but `continue` (and log). Key: function + loop operand + condition atoms.
 func (w *World) skipSites(pkgPrefixes ...string) []skipSite {
 	var out []skipSite
+	count := map[string]int{}
 	var keysFn []string
 	for k := range w.Funcs {
 		keysFn = append(keysFn, k)
@@ -43,7 +45,6 @@ func (w *World) skipSites(pkgPrefixes ...string) []skipSite {
 			continue
 		}
 		info := fi.Pkg.TypesInfo
-		count := map[string]int{}
 		var walk func(n ast.Node, loop *ast.RangeStmt)
 		walk = func(n ast.Node, loop *ast.RangeStmt) {
 			ast.Inspect(n, func(x ast.Node) bool {
@@ -92,13 +93,20 @@ func (w *World) skipSites(pkgPrefixes ...string) []skipSite {
 					}
 					sort.Strings(ks)
 					cond := strings.Join(ks, ",")
-					base := fmt.Sprintf("%s:range(%s):skip[%s]", fi.Key, exprString(loop.X), cond)
-					count[base]++
-					key := base
-					if count[base] > 1 {
-						key = fmt.Sprintf("%s#%d", base, count[base])
+					over := exprString(loop.X)
+					if t := info.TypeOf(loop.X); t != nil {
+						over = short(types.TypeString(t, nil))
 					}
-					out = append(out, skipSite{Fn: fi.Key, Key: key, Cond: cond, Over: exprString(loop.X), Pos: s.Pos()})
+					// a skip inside a new function belongs to the reviewed function(s) it is reached from
+					for _, host := range hostParts(w.hostKey(fi.Key)) {
+						base := fmt.Sprintf("%s:range(%s):skip[%s]", host, over, cond)
+						count[base]++
+						key := base
+						if count[base] > 1 {
+							key = fmt.Sprintf("%s#%d", base, count[base])
+						}
+						out = append(out, skipSite{Fn: host, Key: key, Cond: cond, Over: over, Pos: s.Pos(), Atoms: a})
+					}
 				}
 				return true
 			})
@@ -175,6 +183,8 @@ func ruleSkipInventory(c *Ctx, r *Report, clause string, table map[string]string
 		desc := "loop skip in " + s.Fn + " over " + s.Over
 		if reason, ok := table[s.Key]; ok {
 			desc += ": " + reason
+		} else if w.decidesOnKnownInputs(c.VerifDir, s.Fn, s.Atoms) {
+			desc += ": not in the table, but it decides only on inputs this function's reviewed branches already decide on (a restructured conditional)"
 		} else {
 			viol = fmt.Sprintf("%s: %s leaves elements of %s out under a condition [%s] that is not in the reviewed table (tables/skips.json): whatever that loop produces (operations, parameters, properties, imports, entries, comment lines) silently loses the skipped elements", w.pos(s.Pos), s.Fn, s.Over, s.Cond)
 		}
